@@ -37,6 +37,7 @@ import (
 	"github.com/libp2p/go-libp2p/core/peerstore"
 	"github.com/libp2p/go-libp2p/core/protocol"
 	"github.com/libp2p/go-libp2p/internal/vfh"
+	"github.com/libp2p/go-libp2p/p2p/host/peerstore/pstoremem"
 	"github.com/libp2p/go-libp2p/p2p/protocol/autonatv2/pb"
 	ma "github.com/multiformats/go-multiaddr"
 	"google.golang.org/protobuf/proto"
@@ -684,18 +685,20 @@ type vfC16DialEv struct {
 	At          int64 `json:"virtual_ms"`
 }
 
-// vfC16Dialer is the fake dialer host: it records, never touches a network.
+// vfC16Dialer is the fake dialer host: it records, never touches a network.  Its peerstore is a REAL
+// pstoremem that lives for the whole walk (TTLs run on the bubble's virtual clock): what a Connect
+// would dial is whatever that peerstore holds for the peer at that moment plus AddrInfo.Addrs, exactly
+// as for a real host.
 type vfC16Dialer struct {
 	host.Host
 	mu       sync.Mutex
-	addrs    map[peer.ID][]ma.Multiaddr
+	pstore   peerstore.Peerstore
 	events   []vfC16DialEv
 	canDial  []string
 	cur      *vfC16Stream // the request stream being served (sequential scenarios)
 	outcome  string       // ok | dialerr | streamerr
 	t0       time.Time
 	net      *vfC16Net
-	ps       *vfC16PS
 	closedPs int
 }
 
@@ -703,27 +706,33 @@ type vfC16Net struct {
 	network.Network
 	d *vfC16Dialer
 }
-type vfC16PS struct {
-	peerstore.Peerstore
-	d *vfC16Dialer
-}
 
 func vfC16NewDialer() *vfC16Dialer {
-	d := &vfC16Dialer{addrs: map[peer.ID][]ma.Multiaddr{}, outcome: "ok", t0: time.Now()}
+	ps, err := pstoremem.NewPeerstore()
+	if err != nil {
+		panic(err)
+	}
+	d := &vfC16Dialer{pstore: ps, outcome: "ok", t0: time.Now()}
 	d.net = &vfC16Net{d: d}
-	d.ps = &vfC16PS{d: d}
 	return d
 }
 func (d *vfC16Dialer) ID() peer.ID                     { return peer.ID("vf-dialer") }
 func (d *vfC16Dialer) Network() network.Network        { return d.net }
-func (d *vfC16Dialer) Peerstore() peerstore.Peerstore  { return d.ps }
-func (d *vfC16Dialer) Close() error                    { return nil }
+func (d *vfC16Dialer) Peerstore() peerstore.Peerstore  { return d.pstore }
+func (d *vfC16Dialer) Close() error                    { return d.pstore.Close() }
+func (d *vfC16Dialer) residue() int                    { return len(d.pstore.PeersWithAddrs()) }
 func (d *vfC16Dialer) Addrs() []ma.Multiaddr           { return nil }
 func (d *vfC16Dialer) record(kind string, ctx context.Context, p peer.ID, extra []ma.Multiaddr) {
+	held := d.pstore.Addrs(p) // what a real host would dial for p now (unexpired entries)
 	d.mu.Lock()
 	defer d.mu.Unlock()
 	ev := vfC16DialEv{Kind: kind, Peer: string(p), At: time.Since(d.t0).Milliseconds()}
-	for _, a := range append(append([]ma.Multiaddr{}, d.addrs[p]...), extra...) {
+	seen := map[string]bool{}
+	for _, a := range append(held, extra...) {
+		if seen[string(a.Bytes())] {
+			continue
+		}
+		seen[string(a.Bytes())] = true
 		ev.Addrs = append(ev.Addrs, a.String())
 		ev.addrBytes = append(ev.addrBytes, a.Bytes())
 	}
@@ -787,37 +796,6 @@ func (n *vfC16Net) DialPeer(ctx context.Context, p peer.ID) (network.Conn, error
 }
 func (n *vfC16Net) LocalPeer() peer.ID { return n.d.ID() }
 func (n *vfC16Net) Connectedness(peer.ID) network.Connectedness { return network.NotConnected }
-
-func (p *vfC16PS) AddAddr(id peer.ID, a ma.Multiaddr, _ time.Duration) {
-	p.d.mu.Lock()
-	p.d.addrs[id] = append(p.d.addrs[id], a)
-	p.d.mu.Unlock()
-}
-func (p *vfC16PS) AddAddrs(id peer.ID, as []ma.Multiaddr, _ time.Duration) {
-	p.d.mu.Lock()
-	p.d.addrs[id] = append(p.d.addrs[id], as...)
-	p.d.mu.Unlock()
-}
-func (p *vfC16PS) Addrs(id peer.ID) []ma.Multiaddr {
-	p.d.mu.Lock()
-	defer p.d.mu.Unlock()
-	return append([]ma.Multiaddr{}, p.d.addrs[id]...)
-}
-func (p *vfC16PS) ClearAddrs(id peer.ID) {
-	p.d.mu.Lock()
-	delete(p.d.addrs, id)
-	p.d.mu.Unlock()
-}
-func (p *vfC16PS) RemovePeer(id peer.ID) {
-	p.d.mu.Lock()
-	delete(p.d.addrs, id)
-	p.d.mu.Unlock()
-}
-func (p *vfC16PS) residue() int {
-	p.d.mu.Lock()
-	defer p.d.mu.Unlock()
-	return len(p.d.addrs)
-}
 
 type vfC16Tracer struct {
 	mu   sync.Mutex
@@ -1409,8 +1387,8 @@ func (s *vfC16Srv) step(op vfh.Op, maxAddrs int) (cls, what string, exp, got any
 			}
 		}
 	}
-	if q.isDone() && s.dialer.ps.residue() != 0 {
-		return "L2:peer-not-forgotten", "dialer peerstore still holds addresses after the request", 0, s.dialer.ps.residue()
+	if q.isDone() && s.dialer.residue() != 0 {
+		return "L2:peer-not-forgotten", "dialer peerstore still holds addresses after the request", 0, s.dialer.residue()
 	}
 	return "", "", nil, nil
 }
@@ -1517,6 +1495,12 @@ func TestVerifC16Server(t *testing.T) {
 								}
 							}
 							res.Count(0, 1)
+							if cls == "L2:peer-not-forgotten" {
+								// the server still follows the model; keep walking so that the L1 clauses judge the
+								// later requests of this walk (what a left-over address leads to)
+								vfC16Add(res, vfh.Mismatch{Class: cls, What: what, Walk: j.w.Walk, Step: i, Expected: exp, Got: got, Prefix: prefix, Cfg: cfg})
+								cls = ""
+							}
 							if cls != "" {
 								vfC16Add(res, vfh.Mismatch{Class: cls, What: what, Walk: j.w.Walk, Step: i, Expected: exp, Got: got, Prefix: prefix, Cfg: cfg})
 								if strings.HasPrefix(cls, "L2:") {
@@ -1528,6 +1512,7 @@ func TestVerifC16Server(t *testing.T) {
 							}
 						}
 						sys.drain()
+						sys.dialer.Close()
 						res.Count(1, 0)
 						smu.Lock()
 						for k, v := range sys.stats {
@@ -1556,8 +1541,13 @@ func TestVerifC16Server(t *testing.T) {
 	}
 }
 
-// TestVerifC16Concurrent: concurrent requests of one peer; at no time are more than the configured
-// number served (handler running, not answered E_REQUEST_REJECTED).
+// TestVerifC16Concurrent: concurrent requests of one or two peers.  Requests are PARKED inside the server
+// (blocked reading the request, or blocked reading dial data) while further requests of the same peer
+// arrive and leave through every exit of the handler: rejected by the concurrency cap, the global limit,
+// the per-peer limit, the dial-data limit; refused (no dialable address); read error / garbage / wrong
+// message; served with a dial.  L1 monitor, from the harness's own entry/exit bookkeeping only: the
+// number of handlers of one peer that are inside the serving section at the same time (running and not
+// answered E_REQUEST_REJECTED) never exceeds MaxConcurrentRequestsPerPeer.
 func TestVerifC16Concurrent(t *testing.T) {
 	res := vfh.NewResult()
 	vfC16L2.Store(0)
@@ -1566,61 +1556,125 @@ func TestVerifC16Concurrent(t *testing.T) {
 			t.Fatal(err)
 		}
 	}()
-	res.Rule = "one case = one seeded schedule of starting / finishing concurrent requests of one or two peers on the real server; monitor: requests served at the same time per peer <= MaxConcurrentRequestsPerPeer"
-	n := 30
+	res.Rule = "one case = one seeded schedule of concurrent requests of one or two peers on the real server, with requests parked before the request / inside the dial-data read while others leave through each exit (cap, global, per-peer, dial-data limit, refused, read error, dial); monitor: handlers of one peer inside the serving section at the same time <= MaxConcurrentRequestsPerPeer"
+	n := 60
 	if vfh.Thorough() {
-		n = 200
+		n = 400
 	}
+	type par struct{ rpm, ddrpm int }
+	pars := []par{{10000, 10000}, {10000, 1}, {10000, 2}, {8, 1}, {5, 10000}, {12, 2}}
+	kinds := map[string]int{}
 	for i := 0; i < n; i++ {
 		cap := 1 + i%3
+		pr := pars[(i/3)%len(pars)]
 		synctest.Test(t, func(t *testing.T) {
-			sys := vfC16NewSrv(t, 10000, 10000, cap, vfh.Seed()*31337+int64(i))
+			sys := vfC16NewSrv(t, pr.rpm, pr.ddrpm, cap, vfh.Seed()*31337+int64(i))
+			defer sys.dialer.Close()
+			obs := vfC16Observed[0]
 			peers := []peer.ID{"vf-requester", "vf-other"}
 			open := map[peer.ID][]*vfC16Req{}
 			var hist []string
-			cfg := map[string]any{"schedule": i, "MaxConc": cap}
+			cfg := map[string]any{"schedule": i, "MaxConc": cap, "RPM": pr.rpm, "DialDataRPM": pr.ddrpm}
 			bad := false
-			for k := 0; k < 40 && !bad; k++ {
-				p := peers[sys.rnd.Intn(len(peers))]
-				if len(open[p]) > 0 && sys.rnd.Intn(3) == 0 {
-					// finish one request in progress: an empty request is refused, or the client goes away
+			sweep := func() {
+				for p, l := range open {
+					var keep []*vfC16Req
+					for _, q := range l {
+						if !q.isDone() {
+							keep = append(keep, q)
+						}
+					}
+					open[p] = keep
+				}
+			}
+			req := func(addrs ...string) []byte {
+				var raw [][]byte
+				for _, a := range addrs {
+					raw = append(raw, ma.StringCast(a).Bytes())
+				}
+				return vfC16Delim(&pb.Message{Msg: &pb.Message_DialRequest{DialRequest: &pb.DialRequest{Addrs: raw, Nonce: 7}}})
+			}
+			for k := 0; k < 60 && !bad; k++ {
+				p := peers[sys.rnd.Intn(3)%2] // mostly the first peer
+				switch c := sys.rnd.Intn(12); {
+				case c < 3 && len(open[p]) > 0:
+					// let one parked request of p go on to its end
 					j := sys.rnd.Intn(len(open[p]))
 					q := open[p][j]
-					open[p] = append(open[p][:j], open[p][j+1:]...)
-					if sys.rnd.Intn(2) == 0 {
-						q.st.feed(vfC16Delim(&pb.Message{Msg: &pb.Message_DialRequest{DialRequest: &pb.DialRequest{}}}))
-					} else {
+					how := sys.rnd.Intn(3)
+					switch {
+					case q.asked > 0 && how == 0: // pay the dial data: the request ends with a dial
+						sys.send(q, sys.split(q.asked-q.sent, 1))
+					case q.asked == 0 && how == 0:
+						q.st.feed(req()) // empty request: refused
+					case q.asked == 0 && how == 1:
+						q.st.feed(req(obs.same[0])) // served with a dial at once
+					default:
 						q.st.clientClose()
 					}
 					sys.settle(q)
-					hist = append(hist, fmt.Sprintf("finish(%s)", p))
+					hist = append(hist, fmt.Sprintf("resume(%s,#%d,%d)", p, j, how))
+					kinds["resume"]++
 					if !q.isDone() {
-						t.Fatalf("request did not finish")
+						// an empty-handed request turned into one that waits for dial data: still parked
+						if msgs, _ := q.st.nextMsgs(); len(msgs) == 1 && msgs[0].GetDialDataRequest() != nil {
+							q.asked, q.baseRead = int64(msgs[0].GetDialDataRequest().NumBytes), q.st.nread()
+						}
 					}
+					sweep()
+					continue
+				case c == 3:
+					time.Sleep([]time.Duration{time.Second, 5 * time.Second, vfC16Window + time.Second}[sys.rnd.Intn(3)])
+					synctest.Wait()
+					sweep() // parked requests may have hit the stream deadline
+					hist = append(hist, "sleep")
 					continue
 				}
-				st := vfC16NewStream(p, ma.StringCast("/ip4/1.2.3.4/tcp/1"), 0)
+				// a new request of p arrives
+				st := vfC16NewStream(p, ma.StringCast(obs.observed), 0)
+				var kind string
+				switch sys.rnd.Intn(6) {
+				case 0, 1:
+					kind = "park" // nothing sent yet: parks reading the request (if admitted)
+				case 2, 3:
+					kind = "needdata" // foreign IP: parks reading dial data, or is rejected by the dial-data limit
+					st.feed(req(obs.other[0]))
+				case 4:
+					kind = "refused"
+					st.feed(req(vfC16Priv[0], vfC16Undial[0]))
+				default:
+					kind = "garbage"
+					st.feed([]byte{5, 0xff, 0xff, 0xff, 0xff, 0xff})
+				}
+				sys.dialer.setOutcome("ok")
 				q := sys.start(st)
 				sys.settle(q)
 				msgs, _ := st.nextMsgs()
-				rejected := q.isDone() && len(msgs) == 1 && msgs[0].GetDialResponse().GetStatus() == pb.DialResponse_E_REQUEST_REJECTED
-				hist = append(hist, fmt.Sprintf("start(%s)=%v", p, !rejected))
-				res.Count(0, 1)
-				switch {
-				case rejected:
-					if len(open[p]) < cap {
-						vfC16Add(res, vfh.Mismatch{Class: "L2:over-rejection", What: fmt.Sprintf("request rejected with %d of %d in progress", len(open[p]), cap), Walk: -1, Step: k, Prefix: hist, Cfg: cfg})
-						bad = true
+				status := ""
+				for _, m := range msgs {
+					if m.GetDialResponse() != nil {
+						status = vfC16StatusName[m.GetDialResponse().Status]
 					}
-				case q.isDone():
-					t.Fatalf("request finished without reading a request and without rejection")
-				default:
+					if m.GetDialDataRequest() != nil {
+						q.asked, q.baseRead = int64(m.GetDialDataRequest().NumBytes), st.nread()
+						status = "DATAREQ"
+					}
+				}
+				kinds[kind+"/"+status]++
+				hist = append(hist, fmt.Sprintf("start(%s,%s)=%s parked=%v", p, kind, status, !q.isDone()))
+				res.Count(0, 1)
+				if !q.isDone() {
+					// the handler is inside the serving section and stays there
 					open[p] = append(open[p], q)
 					if len(open[p]) > cap {
 						vfC16Add(res, vfh.Mismatch{Class: "concurrent-cap", What: fmt.Sprintf("%d requests of one peer served concurrently, MaxConcurrentRequestsPerPeer=%d", len(open[p]), cap), Walk: -1, Step: k, Prefix: hist, Cfg: cfg})
 						bad = true
 					}
+				} else if status == "REJECTED" && kind != "needdata" && pr.rpm >= 10000 && len(open[p]) < cap {
+					vfC16Add(res, vfh.Mismatch{Class: "L2:over-rejection", What: fmt.Sprintf("request rejected with %d of %d in progress", len(open[p]), cap), Walk: -1, Step: k, Prefix: hist, Cfg: cfg})
+					bad = true
 				}
+				sweep()
 			}
 			for _, l := range open {
 				for _, q := range l {
@@ -1628,8 +1682,12 @@ func TestVerifC16Concurrent(t *testing.T) {
 					sys.settle(q)
 				}
 			}
+			sys.dialer.takeEvents()
 			res.Count(1, 0)
 			res.Case(fmt.Sprintf("conc-%d", i))
 		})
+	}
+	for k, v := range kinds {
+		res.Set("n_"+k, v)
 	}
 }
